@@ -273,6 +273,19 @@ impl<const N: usize> SecretKey<N> {
     }
 }
 
+#[cfg(feature = "verif-hooks")]
+impl<const N: usize> SecretKey<N> {
+    pub(crate) fn verif_b0(&self) -> [Vec<i16>; 4] {
+        self.b0.clone().map(|p| p.coefficients)
+    }
+    pub(crate) fn verif_tree(&self) -> &LdlTree {
+        &self.tree
+    }
+    pub(crate) fn verif_from_b0(b0: [Vec<i16>; 4]) -> Self {
+        Self::from_b0(b0.map(Polynomial::new))
+    }
+}
+
 impl<const N: usize> PartialEq for SecretKey<N> {
     fn eq(&self, other: &Self) -> bool {
         let own_f = &self.b0[1];
@@ -452,6 +465,8 @@ pub fn keygen<const N: usize>(seed: [u8; 32]) -> (SecretKey<N>, PublicKey<N>) {
 /// [1]: https://falcon-sign.info/falcon.pdf
 pub fn sign<const N: usize>(m: &[u8], sk: &SecretKey<N>) -> Signature<N> {
     let mut rng = thread_rng();
+    #[cfg(feature = "verif-hooks")]
+    let mut rng = crate::verif::TapRng::new(rng);
     let mut r = [0u8; 40];
     rng.fill_bytes(&mut r);
 
@@ -498,6 +513,8 @@ pub fn sign<const N: usize>(m: &[u8], sk: &SecretKey<N>) -> Signature<N> {
                     .map(|a| (a * a.conj()).re)
                     .sum::<f64>())
                 / (n as f64);
+            #[cfg(feature = "verif-hooks")]
+            let length_squared = crate::verif::tap_norm(length_squared);
 
             if length_squared > (bound as f64) {
                 continue;
@@ -513,6 +530,8 @@ pub fn sign<const N: usize>(m: &[u8], sk: &SecretKey<N>) -> Signature<N> {
                 .collect_vec(),
             params.sig_bytelen - 41,
         );
+        #[cfg(feature = "verif-hooks")]
+        let maybe_s = crate::verif::tap_compress(maybe_s);
 
         match maybe_s {
             Some(s) => {
